@@ -215,10 +215,19 @@ pub fn run(args: &Args, rng: &mut Rng, sink: &mut Sink) {
         "fsst_rt",
         REQ,
         "chk_fsst_roundtrip",
-        "(N * N) * N * N * list (list N)",
-        "outcome (list N * list (list N) * outcome (option (list (list N))))",
+        "(N * N) * N * N * list (list PrimInt63.int)",
+        "outcome (list PrimInt63.int * list (list PrimInt63.int) * outcome (option (list (list PrimInt63.int))))",
     );
-    s.shard = 1;
+    s.shard = 2;
+    // same checker, separate stream so that the many small cases share one coqc process
+    let mut s_small = Stream::new(
+        "fsst_small",
+        REQ,
+        "chk_fsst_roundtrip",
+        "(N * N) * N * N * list (list PrimInt63.int)",
+        "outcome (list PrimInt63.int * list (list PrimInt63.int) * outcome (option (list (list PrimInt63.int))))",
+    );
+    s_small.shard = 60;
     // plan: (kind, target total length, error flavour)
     let mut plan: Vec<(String, usize, &str)> = vec![];
     let bulk = args.vol(11, 66);
@@ -240,7 +249,7 @@ pub fn run(args: &Args, rng: &mut Rng, sink: &mut Sink) {
     }
     // argument errors
     for e in ["table-short", "table-long", "out-small", "offs-small", "out-small-copy"] {
-        let t = if e == "out-small-copy" { 500 } else { FSST_LEAST_INPUT_SIZE + 100 };
+        let t = if e == "out-small-copy" || e.starts_with("table-") { 500 } else { FSST_LEAST_INPUT_SIZE + 100 };
         plan.push(("text".into(), t, e));
     }
 
@@ -309,7 +318,7 @@ pub fn run(args: &Args, rng: &mut Rng, sink: &mut Sink) {
                             if consistent(dd, doffs) {
                                 format!("(Ok (Some {}))", cstrs(dd, doffs))
                             } else {
-                                "(Ok (Some [[1000]]))".to_string()
+                                "(Ok (Some [[1000%uint63]]))".to_string()
                             }
                         }
                     }
@@ -334,13 +343,18 @@ pub fn run(args: &Args, rng: &mut Rng, sink: &mut Sink) {
                 format!("(Ok ({}, {}, {}))", cbytes(&tb), cstrs(comp, comp_offs), dec)
             }
         };
-        s.push(inp, out, hj);
+        if len < 8000 {
+            s_small.push(inp, out, hj);
+        } else {
+            s.push(inp, out, hj);
+        }
     }
     sink.add(s);
+    sink.add(s_small);
 
     // ------------------------------------------------------------ decompress on synthetic code streams
-    let mut s = Stream::new("fsst_dec", REQ, "chk_fsst_decompress", "list N * list (list N) * N * N", "outcome (list (list N))");
-    s.shard = 8;
+    let mut s = Stream::new("fsst_dec", REQ, "chk_fsst_decompress", "list PrimInt63.int * list (list PrimInt63.int) * N * N", "outcome (list (list PrimInt63.int))");
+    s.shard = 30;
     let per_table = args.vol(3, 12);
     for (ti, rt) in tables.iter().enumerate() {
         for k in 0..per_table {
@@ -390,7 +404,7 @@ pub fn run(args: &Args, rng: &mut Rng, sink: &mut Sink) {
             sink.nontrivial(&format!("fsstdec{ti}/{k}/{}", hex(&data[..data.len().min(16)])));
             let out = match &r {
                 Oc::Ok((d, o)) if consistent(d, o) => format!("(Ok {})", cstrs(d, o)),
-                Oc::Ok(_) => "(Ok [[1000]])".to_string(),
+                Oc::Ok(_) => "(Ok [[1000%uint63]])".to_string(),
                 Oc::Err => "Err".into(),
                 Oc::Panic => "Panic".into(),
             };
@@ -418,7 +432,7 @@ pub fn run(args: &Args, rng: &mut Rng, sink: &mut Sink) {
             let r = do_decompress::<i32>(&tb, &data, &offs, out_cap, offs_cap);
             sink.count(&format!("fsst_dec:args:{kind}:{}", r.tag()));
             sink.nontrivial(&format!("fsstdecargs/{kind}"));
-            let out = r.coq(|(d, o)| if consistent(d, o) { cstrs(d, o) } else { "[[1000]]".into() });
+            let out = r.coq(|(d, o)| if consistent(d, o) { cstrs(d, o) } else { "[[1000%uint63]]".into() });
             s.push(format!("({}, {}, {}, {})", cbytes(&tb), cstrs(&data, &offs), out_cap, offs_cap), out, json!({"kind": kind, "out_cap": out_cap, "offs_cap": offs_cap, "outcome": r.tag()}));
         }
     }
@@ -436,7 +450,7 @@ pub fn run(args: &Args, rng: &mut Rng, sink: &mut Sink) {
             }
             sink.count(&format!("fsst_dec:copy-table:{}", r.tag()));
             sink.nontrivial(&format!("fsstdeccopy/{out_cap}/{offs_cap}"));
-            let out = r.coq(|(d, o)| if consistent(d, o) { cstrs(d, o) } else { "[[1000]]".into() });
+            let out = r.coq(|(d, o)| if consistent(d, o) { cstrs(d, o) } else { "[[1000%uint63]]".into() });
             s.push(format!("({}, {}, {}, {})", cbytes(tb), cstrs(&data, &offs), out_cap, offs_cap), out, json!({"kind": "copy-table", "out_cap": out_cap, "offs_cap": offs_cap, "outcome": r.tag()}));
         }
     }
